@@ -26,7 +26,13 @@ func TestSmokeB(t *testing.T) {
 	for i := 0; i < n; i++ {
 		seed := uint64(base + i)
 		plan := Gen(prop, "quick", seed)
-		res := Execute(t, plan, nil, false)
+		res := Execute(t, plan, nil, os.Getenv("VV") != "")
+		if os.Getenv("VV") != "" {
+			fmt.Printf("=== seed %d\n", seed)
+			for _, l := range res.Log {
+				fmt.Println("   ", l)
+			}
+		}
 		if res.Nontrivial {
 			nt++
 		}
